@@ -223,7 +223,9 @@ class StretchyTreeMatcher:
         if is_generic:
             return self.deep_find_match_generic(ins_node, std_node, check_meta, use_previous=use_previous)
         else:  # this means that the node is clearly commutative
-            return self.deep_find_match_binflex(ins_node, std_node, False, use_previous=use_previous,
+            # (which field of its parent the operation sits in matters like for
+            # any other node; only its two operands may change places)
+            return self.deep_find_match_binflex(ins_node, std_node, check_meta, use_previous=use_previous,
                                                 check_operand_meta=check_meta)
 
     # noinspection PyMethodMayBeStatic
